@@ -39,7 +39,7 @@ M = [
   "    next_run_at = ?\nWHERE state = ?\n  AND id IN (` + inPlaceholders + `)", "    next_run_at = ?\nWHERE state <> ?||'x'\n  AND id IN (` + inPlaceholders + `)", ["./internal/queue/"]),
  ("C03", "memory Extend works on an expired lease (lease revived after another consumer could take it)", "internal/queue/memory.go",
   "\tif !env.LeaseUntil.IsZero() && !now.Before(env.LeaseUntil) {\n\t\ts.requeueLocked(now, env)\n\t\treturn ErrLeaseExpired\n\t}\n\n\tenv.LeaseUntil = env.LeaseUntil.Add(extendBy)",
-  "\tenv.LeaseUntil = env.LeaseUntil.Add(extendBy)", ["./internal/queue/"]),
+  "\t_ = now\n\tenv.LeaseUntil = env.LeaseUntil.Add(extendBy)", ["./internal/queue/"]),
  ("C04", "pull idempotency cache keyed without the operation", "internal/pullapi/http.go",
   "key := recentLeaseOpKey{leaseID: leaseID, op: op}", "key := recentLeaseOpKey{leaseID: leaseID, op: \"x\"}", ["./internal/pullapi/"]),
  ("C04", "sqlite lease mutations match on lease_id only (expired lease still acks)", "internal/queue/sqlite.go",
